@@ -1,4 +1,4 @@
 (* extraction of the C20 model: ExtrOcamlBasic only, no directives of our own *)
 From Coq Require Import ExtrOcamlBasic.
 From V Require Import LocalTab.
-Extraction "c20_model.ml" store store_bytes fields_bytes decode_elements extract roundtrip cat_desc64 unit_kind kind_code T0 nbits_of.
+Extraction "c20_model.ml" store store_bytes fields_bytes decode_elements extract roundtrip cat_desc64 unit_kind kind_code T0 nbits_of entry_valtype vtype_code.
